@@ -348,7 +348,7 @@ def project_files(desc):
         y = {}
         if c.get("env"):
             y["environment"] = {k: render_tmpl(t) for k, t in c["env"]}
-        for k in ("buildVars", "packageVars"):
+        for k in ("buildVars", "packageVars", "buildTools", "packageTools"):
             if c.get(k):
                 y[k] = list(c[k])
         files["classes/%s.yaml" % name] = yaml.safe_dump(y, sort_keys=True)
@@ -827,7 +827,81 @@ def gen_alternating_history(rng, length):
     return {"steps": steps[:length + (length % 2)], "kinds": kinds[:length + (length % 2)], "dev": rng.random() < 0.3}
 
 
+def class_tools_edit(rng, step, on):
+    """a class inherited by a recipe that names tools itself starts (on) / stops (off) naming one of them too
+    (seed C04-3: Recipe.resolveClasses extends the recipe's own tool lists in place; what a cache keeps of a parsed
+    recipe must not contain the class's share). Returns the new step or None."""
+    s = copy.deepcopy(step)
+    s.pop("touch", None)
+    d = s["desc"]
+    if on:
+        # recipes that name tools in a strong list of their own (the list object of the parsed document is what
+        # resolveClasses extends) and could use one more tool
+        cand = []
+        for n, r in sorted(d["recipes"].items()):
+            avail = set(t for dp in r["deps"] if "tools" in (dp["use"] or []) and dp["if"] is None
+                        for t in d["recipes"].get(dp["name"], {}).get("provideTools", {}))
+            own = set(r["buildTools"] + r["packageTools"] + r["buildToolsWeak"] + r["packageToolsWeak"])
+            for k in ("buildTools", "packageTools"):
+                if r[k]:
+                    more = sorted(avail - own) or sorted(set(TOOLS) - own)
+                    if more:
+                        cand.append((n, r, k, more, bool(avail - own)))
+        if not cand:
+            return None
+        best = [c for c in cand if c[4]] or cand
+        n, r, k, more, _ = rng.choice(best)
+        t = rng.choice(more)
+        inh = [x for x in r["classes"] if x in d["classes"]]
+        if not inh:
+            d["classes"].setdefault("clst", {"env": [], "packageVars": [], "buildVars": []})
+            r["classes"] = list(r["classes"]) + ["clst"]
+            inh = ["clst"]
+        c = d["classes"][rng.choice(sorted(inh))]
+        c[k] = sorted(set(c.get(k, [])) | {t})
+        if rng.random() < 0.7:
+            # the recipe file changes in the same commit: it is parsed afresh while the class names the tool
+            base, _, num = r["build"].rpartition("-")
+            r["build"] = "%s-%s%d" % (base, num[0], int(num[1:]) + 1)
+        return s
+    cs = [c for c in d["classes"].values() if c.get("buildTools") or c.get("packageTools")]
+    if not cs:
+        return None
+    c = rng.choice(cs)
+    k = rng.choice([k for k in ("buildTools", "packageTools") if c.get(k)])
+    c[k] = c[k][1:]
+    return s
+
+
 def gen_history(rng, length):
+    h = gen_history0(rng, length)
+    if rng.random() < 0.4 and len(h["steps"]) >= 3:
+        # directed pair somewhere in the history: a class starts naming a tool, later it stops again
+        i = rng.randrange(1, len(h["steps"]) - 1)
+        j = rng.randrange(i + 1, len(h["steps"]))
+        steps, kinds = list(h["steps"]), list(h["kinds"])
+        a = class_tools_edit(rng, steps[i - 1], True)
+        if a is not None:
+            steps[i], kinds[i] = a, "class_tools_on"
+            # later states are re-derived from the edited one only at j: the states between keep their own edits
+            b = class_tools_edit(rng, steps[j - 1] if j - 1 != i else a, False) if j - 1 == i else None
+            if j - 1 == i and b is not None:
+                steps[j], kinds[j] = b, "class_tools_off"
+            elif j - 1 != i:
+                # carry the class edit through the states between i and j, then drop it at j
+                for m in range(i + 1, j):
+                    steps[m] = copy.deepcopy(steps[m]); steps[m]["desc"]["classes"] = copy.deepcopy(a["desc"]["classes"])
+                    for rn, rr in a["desc"]["recipes"].items():
+                        if rn in steps[m]["desc"]["recipes"]:
+                            steps[m]["desc"]["recipes"][rn]["classes"] = list(rr["classes"])
+                b = class_tools_edit(rng, steps[j - 1], False)
+                if b is not None:
+                    steps[j], kinds[j] = b, "class_tools_off"
+            h = dict(h, steps=steps, kinds=kinds)
+    return h
+
+
+def gen_history0(rng, length):
     if rng.random() < 0.3:
         return gen_alternating_history(rng, length)
     st = {"desc": gen_desc(rng), "defines": [], "cfg": rng.random() < 0.3, "sandbox": rng.random() < 0.4, "seed": rng.randrange(1, 100000)}
@@ -1008,8 +1082,12 @@ def flatten_recipe(desc, name):
     bweak = set(r.get("buildVarsWeak", []))
     pweak = set(r.get("packageVarsWeak", [])) | bweak
     bs = set(r.get("buildTools", []))
+    for c in cls:                                  # tool uses named by inherited classes
+        bs |= set(c.get("buildTools", []))
     bw = set(r.get("buildToolsWeak", [])) - bs
     ps = set(r.get("packageTools", [])) | bs
+    for c in cls:
+        ps |= set(c.get("packageTools", []))
     pw = (set(r.get("packageToolsWeak", [])) | set(r.get("buildToolsWeak", []))) - ps
     return {"layers": layers, "cvars": sorted(cvars), "bvars": sorted(bvars), "ball": sorted(bvars | bweak),
             "pvars": sorted(pvars), "pall": sorted(pvars | pweak), "btools": sorted(bs | bw), "ptools": sorted(ps | pw),
